@@ -211,9 +211,9 @@ pub use keys::secp256k1;
 pub use keys::{ed25519_dalek, CombinedKey, CombinedPublicKey};
 
 pub use builder::Builder;
-pub use keys::{EnrKey, EnrKeyUnambiguous, EnrPublicKey};
 #[cfg(enr_verif)]
 pub use keys::SigningError;
+pub use keys::{EnrKey, EnrKeyUnambiguous, EnrPublicKey};
 pub use node_id::NodeId;
 use std::marker::PhantomData;
 
@@ -515,6 +515,7 @@ impl<K: EnrKey> Enr<K> {
         new_enr
             .content
             .insert(public_key.enr_key(), pubkey.freeze());
+        check_keyed_by(&new_enr.content, key)?;
 
         // sign the record
         new_enr.sign(key)?;
@@ -568,6 +569,7 @@ impl<K: EnrKey> Enr<K> {
         new_enr
             .content
             .insert(public_key.enr_key(), pubkey.freeze());
+        check_keyed_by(&new_enr.content, enr_key)?;
 
         // check the size of the record
         if new_enr.size() > MAX_ENR_SIZE {
@@ -769,6 +771,7 @@ impl<K: EnrKey> Enr<K> {
         new_enr
             .content
             .insert(public_key.enr_key(), pubkey.freeze());
+        check_keyed_by(&new_enr.content, key)?;
 
         // check the size
         if new_enr.size() > MAX_ENR_SIZE {
@@ -811,6 +814,7 @@ impl<K: EnrKey> Enr<K> {
         new_enr
             .content
             .insert(public_key.enr_key(), pubkey.freeze());
+        check_keyed_by(&new_enr.content, enr_key)?;
 
         // increment the sequence number
         new_enr.seq = new_enr
@@ -873,6 +877,7 @@ impl<K: EnrKey> Enr<K> {
         new_enr
             .content
             .insert(public_key.enr_key(), pubkey.freeze());
+        check_keyed_by(&new_enr.content, enr_key)?;
 
         // increment the sequence number
         new_enr.seq = new_enr
@@ -1240,6 +1245,21 @@ pub(crate) fn digest(b: &[u8]) -> [u8; 32] {
     let mut output = [0_u8; 32];
     output.copy_from_slice(&Keccak256::digest(b));
     output
+}
+
+/// Checks that the public key the content resolves to is the signer's: a record signed by `key`
+/// only verifies if no entry of another scheme takes precedence over the signer's entry.
+pub(crate) fn check_keyed_by<K: EnrKey>(
+    content: &BTreeMap<Key, Bytes>,
+    key: &K,
+) -> Result<(), Error> {
+    let public_key = K::enr_to_public(content)?;
+    if public_key.encode().as_ref() != key.public().encode().as_ref() {
+        return Err(Error::InvalidRlpData(DecoderError::Custom(
+            "public key entry does not match the signing key",
+        )));
+    }
+    Ok(())
 }
 
 pub(crate) fn check_spec_reserved_keys(key: &[u8], mut value: &[u8]) -> Result<(), Error> {
